@@ -101,7 +101,7 @@ func genStop(c *ctx) {
 	for b := 0; b < nb; b++ {
 		root := filepath.Join(work, fmt.Sprintf("b%d", b))
 		rng := rand.New(rand.NewSource(c.rng.Int63()))
-		cfg := e2eCfg{upload: b%2 == 0, binary: (b/2)%2 == 0, directory: b%3 == 0, overwrite: b%4 == 1, proto: []int{-1, 2, 0, 4, 3}[b%5],
+		cfg := e2eCfg{upload: b%2 == 0, binary: (b/2)%2 == 0, directory: b%3 == 0, overwrite: b%4 == 1 || b%3 == 0, proto: []int{-1, 2, 0, 4, 3}[b%5],
 			timeout: 5, quiet: b%2 == 1, bufsize: "4k", deadline: 30 * time.Second}
 		tops := stopTree(rng, root, cfg.directory)
 		counts := baselineCounts(cfg, tops, root)
@@ -206,7 +206,18 @@ func genStop(c *ctx) {
 				s.bad = append(s.bad, fmt.Sprintf("success-incomplete: names %v", names))
 			} else {
 				for j, top := range s.tops {
-					if d := sameTree(top, filepath.Join(dest, names[j])); len(d) > 0 {
+					d := sameTree(top, filepath.Join(dest, names[j]))
+					if s.preexist && s.cfg.directory && s.cfg.overwrite {
+						// merged into a directory that already held other entries: those are extra by design
+						var keep []string
+						for _, x := range d {
+							if !strings.HasPrefix(x, "extra:") {
+								keep = append(keep, x)
+							}
+						}
+						d = keep
+					}
+					if len(d) > 0 {
 						s.bad = append(s.bad, "success-incomplete: "+strings.Join(d, ";"))
 					}
 				}
@@ -523,13 +534,27 @@ func genPause(c *ctx) {
 			if probing && counts[p.dir] > 6 {
 				p.idx = 3 + c.rng.Intn(minInt(14, counts[p.dir]-4)) // inside the probing phase
 			}
-			p.hiccup = p.cycles > 1 && c.rng.Intn(2) == 0
+			// only for uploads: there the stalled direction carries acknowledgements to the paused side;
+			// in a download it would carry the file data, and a stall longer than the timeout is then a
+			// genuine fault that rightly ends in an error on the sending server
+			p.hiccup = cfg.upload && p.cycles > 1 && c.rng.Intn(2) == 0
 			p.length = []time.Duration{300 * time.Millisecond, 900 * time.Millisecond, 1500 * time.Millisecond,
 				2100 * time.Millisecond, 3500 * time.Millisecond}[c.rng.Intn(5)]
 			if p.hiccup {
-				// a link hiccup of 0.8 s before the second pause, which then lasts 1.3 s: the read that
-				// was pending through the hiccup expires during that pause
-				p.length = 1300 * time.Millisecond
+				// a link stall around the second pause (see below): the read that was pending when the stall
+				// began expires during that pause.  One file of ~40 frames on a slow link (250 ms per
+				// frame), first pause early in it, so that both cycles and the stall fall inside the data
+				// phase, where reads are pause-aware (outside it a 2.2 s stall is simply a timeout).
+				p.length = 1350 * time.Millisecond
+				p.dir = dirC2S
+				p.idx = 6 + c.rng.Intn(5)
+				p.cfg.directory = false
+				hroot := filepath.Join(root, fmt.Sprintf("hiccup%d", k))
+				os.MkdirAll(filepath.Join(hroot, "s"), 0755)
+				hp := filepath.Join(hroot, "s", "long.bin")
+				os.WriteFile(hp, fillBytes(rand.New(rand.NewSource(int64(k))), 160000, 0), 0644)
+				p.tops = []string{hp}
+				p.cfg.bufsize = "4k"
 			}
 			p.desc = fmt.Sprintf("pause %v x%d hiccup=%v at %s write #%d/%d (timeout %ds) :: %s", p.length, p.cycles, p.hiccup,
 				[]string{"c2s", "s2c"}[p.dir], p.idx, counts[p.dir], timeout, describeCfg(cfg))
@@ -579,8 +604,11 @@ func genPause(c *ctx) {
 							return
 						}
 						if p.hiccup {
-							stallUntil.Store(time.Now().Add(800 * time.Millisecond).UnixNano())
-							time.Sleep(700 * time.Millisecond)
+							// the server's lines stall for 2.2 s (longer than the 2 s timeout); the pause begins
+							// 0.8 s into the stall and lasts 1.35 s: the read that was pending when the stall
+							// began expires WHILE paused (must be retried, not reported as a timeout)
+							stallUntil.Store(time.Now().Add(2200 * time.Millisecond).UnixNano())
+							time.Sleep(800 * time.Millisecond)
 						}
 						r.cliIn.Write([]byte{0x03})
 						from = time.Now().UnixNano()
@@ -600,10 +628,14 @@ func genPause(c *ctx) {
 			}()
 		})
 		cfg.hook = func(d, i int, b []byte) e2eAction {
+			arrived := time.Now().UnixNano() // when the side wrote it (before any delay this harness adds)
 			if d == dirS2C {
 				if w := stallUntil.Load() - time.Now().UnixNano(); w > 0 {
 					time.Sleep(time.Duration(w)) // the link from the server stalls
 				}
+			}
+			if p.hiccup && bytes.HasPrefix(b, []byte("#DATA:")) && !bytes.HasPrefix(b, []byte("#DATA:=")) {
+				time.Sleep(250 * time.Millisecond) // a slow link, so that the transfer outlives two pause cycles
 			}
 			if d == dirC2S && (bytes.HasPrefix(b, []byte("#DATA:=")) || bytes.HasPrefix(b, []byte("#SUCC:="))) {
 				keep.Add(1)
@@ -611,7 +643,7 @@ func genPause(c *ctx) {
 			if d == dirC2S && cfg.upload || d == dirS2C && !cfg.upload {
 				isData := bytes.HasPrefix(b, []byte("#DATA:")) && !bytes.HasPrefix(b, []byte("#DATA:="))
 				wmu.Lock()
-				writes = append(writes, wr{time.Now().UnixNano(), isData})
+				writes = append(writes, wr{arrived, isData})
 				wmu.Unlock()
 			}
 			return inner(d, i, b)
@@ -658,7 +690,8 @@ func genPause(c *ctx) {
 		default:
 			p.outcome = "error"
 			if p.length < time.Duration(timeout)*time.Second-600*time.Millisecond && pauseFrom.Load() != 0 {
-				p.bad = append(p.bad, fmt.Sprintf("short-pause-failed: a pause of %v (timeout %ds) ended in an error: %q", p.length, timeout, tailStr(shown, 300)))
+				p.bad = append(p.bad, fmt.Sprintf("short-pause-failed: a pause of %v (timeout %ds) ended in an error; server said %q; upload result %v; c2s line types %v; s2c line types %v",
+					p.length, timeout, tailStr(r.serverOut, 160), r.uploadErr, tailTypes(lineTypes(r.wire[0]), 12), tailTypes(lineTypes(r.wire[1]), 12)))
 			}
 		}
 		os.RemoveAll(dest)
@@ -675,4 +708,11 @@ func genPause(c *ctx) {
 			c.violate(key, "pausing and resuming violated the pause contract", p.desc+" :: "+strings.Join(p.bad, "; "))
 		}
 	}
+}
+
+func tailTypes(t []string, n int) []string {
+	if len(t) > n {
+		return t[len(t)-n:]
+	}
+	return t
 }
